@@ -197,6 +197,9 @@ def handler(case):
             for need in ["bus/acc_p_energy_shed.csv", f"{ps.name}/ENS.csv"] + ([f"ev_parks/num_cars.csv"] if ps.ev_parks and nlog else []):
                 if nlog and not os.path.exists(os.path.join(d, "sequence", need)):
                     viols.append(("files.missing", f"{entry}: sequence/{need} not written"))
+            if nlog:
+                for v_ in documented_files(ps, os.path.join(d, "sequence"), values=True):
+                    viols.append((v_[0], f"{entry}: {v_[1]}"))
             sig.append(("seq", nlog > 0))
         if save and mode != "seq":
             mcdir = os.path.join(d, "monte_carlo")
@@ -213,6 +216,9 @@ def handler(case):
             for it in sorted(os.listdir(seqroot)) if os.path.isdir(seqroot) else []:
                 cts = {os.path.relpath(os.path.join(dp, fn), d): rows(os.path.join(dp, fn)) for dp, _, fns in os.walk(os.path.join(seqroot, it)) for fn in fns}
                 ref = [v for k, v in cts.items() if k.endswith(os.path.join(ps.name, "ENS.csv"))]
+                if ref and ref[0]:
+                    for v_ in documented_files(ps, os.path.join(seqroot, it), values=False):
+                        viols.append((v_[0], f"{entry}: saved iteration {it}: {v_[1]}"))
                 if ref:
                     badr = {k: v for k, v in cts.items() if v != ref[0]}
                     if badr:
@@ -222,6 +228,43 @@ def handler(case):
     spec = case["spec"]
     nt = (spec["ctrl"]["type"], bool(spec["ctrl"].get("ict")), bool(spec.get("mg")), any("ev" in fd for fd in spec["feeders"]), case["unit"], tuple(sig))
     return dict(ops=[], impl=[], viols=viols[:3], nontrivial=nt, tag=f"{spec['ctrl']['type']}:unit={case['unit']}")
+
+
+def documented_files(ps, root, values):
+    """Every documented quantity of the system, of every child network and of every kind of component has its own file below
+    `root` (<object or kind>/<quantity>.csv) with one column per object; with `values` the columns of the system and of the
+    networks are compared with the histories the objects hold."""
+    from relsad.network.components import MainController
+    out = []
+    groups = [(ps.name, [ps])] + [(n.name, [n]) for n in ps.child_network_list] + [
+        ("bus", ps.buses), ("ev_parks", ps.ev_parks), ("battery", ps.batteries), ("line", ps.lines), ("circuitbreaker", ps.circuitbreakers),
+        ("disconnector", ps.disconnectors), ("intelligent_switch", ps.intelligent_switches), ("sensor", ps.sensors),
+        ("distribution_controllers", ps.controller.distribution_controllers), ("microgrid_controllers", ps.controller.microgrid_controllers),
+        ("main_controller", [ps.controller] if isinstance(ps.controller, MainController) else []), ("ict_line", ps.ict_lines), ("ict_node", ps.ict_nodes)]
+    for k, (dname, objs) in enumerate(groups):
+        if not objs:
+            continue
+        for attr in objs[0].history:
+            fn = os.path.join(root, dname, attr + ".csv")
+            if not os.path.exists(fn):
+                out.append(("files.missing", f"{os.path.relpath(fn, os.path.dirname(root))} not written (quantity {attr} of {dname})"))
+                break
+            with open(fn) as f:
+                rd = list(csv.reader(f))
+            if rd[0][1:] != [str(o) for o in objs]:
+                out.append(("files.columns", f"{dname}/{attr}.csv has columns {rd[0][1:][:4]}, the objects are {[str(o) for o in objs][:4]}"))
+                break
+            if values and k <= len(ps.child_network_list):
+                want = list(objs[0].history[attr].values())
+                got = [r[1] for r in rd[1:]]
+                try:
+                    same = len(want) == len(got) and all(abs(float(g) - float(w)) <= 1e-9 * max(1.0, abs(float(w))) for g, w in zip(got, want))
+                except (TypeError, ValueError):
+                    same = len(want) == len(got)
+                if not same:
+                    out.append(("files.values", f"{dname}/{attr}.csv holds {got[:4]}..., the history of {dname} is {want[:4]}..."))
+                    break
+    return out[:2]
 
 
 def gen(rng, n, nh=0):
